@@ -4834,7 +4834,7 @@ xpath_normalize_space(struct lyxp_set **args, uint32_t arg_count, struct lyxp_se
     /* is there any normalization necessary? */
     for (i = 0; set->val.str[i]; ++i) {
         if (is_xmlws(set->val.str[i])) {
-            if ((i == 0) || space_before || (!set->val.str[i + 1])) {
+            if ((i == 0) || space_before || (!set->val.str[i + 1]) || (set->val.str[i] != ' ')) {
                 have_spaces = 1;
                 break;
             }
@@ -4846,8 +4846,7 @@ xpath_normalize_space(struct lyxp_set **args, uint32_t arg_count, struct lyxp_se
 
     /* yep, there is */
     if (have_spaces) {
-        /* it's enough, at least one character will go, makes space for ending '\0' */
-        new = malloc(strlen(set->val.str) * sizeof(char));
+        new = malloc((strlen(set->val.str) + 1) * sizeof(char));
         LY_CHECK_ERR_RET(!new, LOGMEM(set->ctx), LY_EMEM);
         new_used = 0;
 
